@@ -64,6 +64,10 @@ def run_unit(unit, repo=None, tag=''):
     res['extraction'] = a.report
     linemap = [o for _, o in a.out]
     lines = [l for l, _ in a.out]
+    # C08 / O3: feature- or profile-dependent text in the lines that come from /repo (the
+    # prelude's own shadow macros for debug_assert* are template lines and do not count)
+    repo_txt = '\n'.join(l for l, o in a.out if isinstance(o, tuple) and o and o[0] == 'repo')
+    res['repo_text_scan'] = {kw: len(re.findall(re.escape(kw), repo_txt)) for kw in ('cfg(feature', 'debug_assert', 'cfg(debug_assertions', 'cfg!(')}
     return run_verus(res, out_rs, lines, linemap, t0)
 
 
